@@ -157,6 +157,7 @@ func checkC14(w *World, r *Report) {
 	r.Explanation += " Round 9: (R14.10) stored trees come from Parse; (R14.11) sizes and positions are not narrowed below 32 bits."
 	r.Explanation += " Round 10: (R14.12) token lists are not filtered by what the tokens are."
 	r.Explanation += " Round 11: (R14.13) Parse gets the source unchanged."
+	r.Explanation += " Round 12: (R14.14) bracketing counters are balanced on every successful way out."
 	r.RuleText = "obligation = one size-threshold branch (or one buffer re-allocation); non-trivial = all (each needs the exclusive regions and their callee sets computed)"
 	r.Trusted = []string{"call graph over-approximation", "classification of 'semantic' functions by role: appends to []Token, returns Node/[]Token, writes to io.Writer, or calls such a function"}
 
